@@ -256,6 +256,11 @@ class Sem:
                 at = self._single_atom(inner)
                 if at is not None and at[1] == 'sin_cos':
                     return fn('sin' if ty == '0' else 'cos', *at[2])
+                if at is not None and '::overflowing_' in at[1] and ty == '0' and at[1].split('::')[0] in INT_TYS:
+                    # value part of an inherent overflowing_* operation of a primitive: ideal integer arithmetic
+                    opn = at[1].split('::overflowing_')[1].split('<')[0]
+                    if opn in ('add', 'sub', 'mul', 'div', 'rem', 'neg'):
+                        return self.arith(opn, at[1].split('::')[0], list(at[2]))
             return fn(name, R(inner) if isinstance(inner, Rat) else C(0))
         if base == 'call' or base == 'fn' or base == 'str' or base == 'cmp3':
             return fn(name, *[R(x) if isinstance(x, Rat) else self._b2r(x) for x in a])
@@ -360,6 +365,9 @@ class Sem:
         ar = lambda base: self.arith(base, ty if is_int else '', a)
         if m in ('add', 'sub', 'mul', 'div', 'rem', 'neg', 'bitand', 'bitor', 'bitxor', 'shl', 'shr') and trait not in ('Real', 'Float'):
             return ar(m)
+        if trait == '' and m in ('wrapping_add', 'wrapping_sub', 'wrapping_mul', 'wrapping_neg', 'wrapping_div', 'wrapping_rem'):
+            # inherent wrapping arithmetic of primitives (used by core::num::Wrapping<T>): read in ideal integer arithmetic
+            return self.arith(m[len('wrapping_'):], ty, a)
         if m == 'not': return a[0].neg() if isinstance(a[0], B) else fn('bitnot', R(a[0]))
         if m in ('lt', 'le', 'gt', 'ge', 'eq', 'ne'):
             return self.op(m, a)
